@@ -3,8 +3,9 @@ import LalModel.Model.Hex
 /-
   Model of pkg/rtsp/server_command_session.go (runCmdLoop and the handle* functions), rtsp.go
   (parseTransport / parseRtpRtcpChannel / parseClientPort) and interleaved.go (readInterleaved), at the level of
-  parsed requests: `nazahttp.ReadHttpRequestMessage` is trusted, its result for a well-formed request is the
-  `Req` the model is given; whether `base.ParseRtspUrl` accepts the URI is an input (`uriOk`, the URL code has its
+  parsed requests: header parsing (`nazahttp.ReadHttpHeader`) is trusted, its result for a well-formed request is the
+  `Req` the model is given (the Content-Length / body step of lal's own `readHttpMessage` is modelled at the end of
+  this file); whether `base.ParseRtspUrl` accepts the URI is an input (`uriOk`, the URL code has its
   own model in Model/Url.lean). The observer (lal's logic layer) is the harness': ANNOUNCE and PLAY are accepted,
   DESCRIBE is answered as the scenario says. Authorization headers are not modelled (auth.go: parsing and digest
   check belong to C14); only the challenge path (no Authorization header) is.
@@ -89,7 +90,10 @@ def handleReq (cdc : Codec) (s : St) (r : Req) : GoM (St × List Item × Bool) :
     if !r.uriOk then .ok (s, [], true) else
     match parseLogic cdc r.body with
     | none => .ok (s, [], true)
-    | some ctx => .ok ({ s with pub := some (initWithSdp ctx) }, [.resp 200 r.cseq []], false)   -- no ws header (as the code)
+    | some ctx =>
+      -- one ANNOUNCE or DESCRIBE per connection: `pubSession != nil || subSession != nil` ⇒ ErrRtsp
+      if s.pub.isSome || s.subExists then .ok (s, [], true) else
+      .ok ({ s with pub := some (initWithSdp ctx) }, [.resp 200 r.cseq []], false)   -- no ws header (as the code)
   else if r.method = m "DESCRIBE" then
     if s.auth ≠ 0 then
       -- no Authorization header: challenge
@@ -97,6 +101,7 @@ def handleReq (cdc : Codec) (s : St) (r : Req) : GoM (St × List Item × Bool) :
       else if s.auth = 2 then .ok (s, wsWrap s.ws (.resp 401 r.cseq (m "Digest")) 0, false)
       else .ok (s, [], true)
     else if !r.uriOk then .ok (s, [], true)
+    else if s.pub.isSome || s.subExists then .ok (s, [], true)   -- one ANNOUNCE or DESCRIBE per connection
     else
       let s := { s with subExists := true, sub := some {} }
       match s.describe with
@@ -191,5 +196,44 @@ def readInterleaved : Bytes → Frame
     if rest.length < n then .short else .frame ch.toNat (rest.take n) (rest.drop n)
   | 36 :: _ => .short
   | _ => .notInterleaved
+
+/-! ### readHttpMessage (http_message.go): the Content-Length of the peer and the body allocation -/
+
+/-- `maxHttpMsgBodyLength` -/
+def maxHttpMsgBodyLength : Nat := 1048576
+
+/-- what the header section gave for `Content-Length`: no (or an empty) value, a value `strconv.Atoi` rejects, a Go int -/
+inductive ContentLength where
+  | absent
+  | bad
+  | val (n : Int)
+deriving Repr, DecidableEq
+
+/-- `make([]byte, n)` for a Go int `n`: a negative length, and one above what the runtime can address (2^48 on 64 bit),
+    is `panic: makeslice: len out of range` -/
+def makeLen? (site : String) (n : Int) : GoM Nat :=
+  if n < 0 ∨ n > 281474976710656 then .error (.panic site) else .ok n.toNat
+
+/-- the body step of `readHttpMessage`; `avail` = the bytes the reader still delivers; result: (Body, what stays unread),
+    `none` = `io.ReadFull` failed (the peer closed before `cl` bytes: EOF / unexpected EOF, returned as the error) -/
+def readMsgBody (cl : ContentLength) (avail : Bytes) : GoM (Option (Bytes × Bytes)) :=
+  match cl with
+  | .absent => .ok (some ([], avail))
+  | .bad => .error .err
+  | .val n =>
+    if n < 0 ∨ n > maxHttpMsgBodyLength then .error .err else
+    match makeLen? "readHttpMessage make([]byte, cl)" n with
+    | .error f => .error f
+    | .ok k => if avail.length < k then .ok none else .ok (some (avail.take k, avail.drop k))
+
+/-- the same step of `nazahttp.ReadHttpMessage` (naza v0.30.49), which lal called before: no check between Atoi and make -/
+def readMsgBodyNaza (cl : ContentLength) (avail : Bytes) : GoM (Option (Bytes × Bytes)) :=
+  match cl with
+  | .absent => .ok (some ([], avail))
+  | .bad => .error .err
+  | .val n =>
+    match makeLen? "ReadHttpMessage make([]byte, cl)" n with
+    | .error f => .error f
+    | .ok k => if avail.length < k then .ok none else .ok (some (avail.take k, avail.drop k))
 
 end Lal.RtspSrv
